@@ -23,14 +23,17 @@ static Verdict run(const Case &c) {
 
     auto observe = [&](int eid, int rid, int target) {
         bool probe = ((eid + rid) & 1) != 0;     // kind is a function of the key: duplicates are exact duplicates
-        Mac dst = target == 0 ? own : other;
-        Bytes f = mk_simple(dst, obs_esrc(eid), 0, probe ? OP_PROBE : OP_TRAIN, dst, obs_rsrc(rid), 0);
+        // target 0: addressed to this station at both levels; 1: to another station at both levels;
+        // 2: Ethernet destination own, real destination another station (NOT for us: LLTD addresses a probe by its real destination);
+        // 3: Ethernet destination another station, real destination own (for us, e.g. seen on a shared segment)
+        Mac edst = (target == 0 || target == 2) ? own : other, rdst = (target == 0 || target == 3) ? own : other;
+        Bytes f = mk_simple(edst, obs_esrc(eid), 0, probe ? OP_PROBE : OP_TRAIN, rdst, obs_rsrc(rid), 0);
         std::vector<Ev> tx = sends_only(w.deliver(ifi, f));
         if (!tx.empty()) { v.fail("a Probe/Train made the responder transmit"); return; }
-        if (target == 0) {
+        if (target == 0 || target == 3) {
             ObsKey k{eid, rid};
             if (obs.count(k)) had_dup = true;
-            else obs[k] = QDesc{(uint16_t)(probe ? 1 : 0), obs_rsrc(rid), obs_esrc(eid), own};
+            else obs[k] = QDesc{(uint16_t)(probe ? 1 : 0), obs_rsrc(rid), obs_esrc(eid), edst};
         } else had_foreign = true;
     };
     // one Query; returns false on oracle failure
@@ -62,9 +65,9 @@ static Verdict run(const Case &c) {
         const Op &op = c.ops[i];
         switch (op.kind) {
             case K_ADVANCE: vp_set_now_ms(vp_now_ms() + (uint64_t)op.arg(0)); break;
-            case K_PROBE: observe((int)op.arg(0), (int)op.arg(1), op.arg(3) ? 1 : 0); break;
+            case K_PROBE: observe((int)op.arg(0), (int)op.arg(1), (int)(op.arg(3) & 3)); break;
             case K_BURST:
-                for (int64_t k = 0; k < std::min<int64_t>(op.arg(1), 400) && v.ok; k++) observe((int)(op.arg(0) + k), (int)((op.arg(0) + k) % 3), op.arg(2) ? 1 : 0);
+                for (int64_t k = 0; k < std::min<int64_t>(op.arg(1), 400) && v.ok; k++) observe((int)(op.arg(0) + k), (int)((op.arg(0) + k) % 3), (int)(op.arg(2) & 3));
                 break;
             case K_ROUND: {
                 rounds++;
@@ -137,6 +140,7 @@ static Verdict run(const Case &c) {
 int main(int argc, char **argv) {
     Args a = parse_args(argc, argv);
     if (!a.replay.empty()) return replay_case(a, run);
+    zygote_start(run);   // before any code under test runs in this process
     Current::install(a.failing);
     Evidence ev;
     ev.rule = "MTU (weighted to 576: capacity 27) x Discover from mapper (direct/bridged) x k distinct Probe/Train observations (k from {0,1,2,cap-1,cap,cap+1,2cap+1,300} and random), "
@@ -165,14 +169,15 @@ int main(int argc, char **argv) {
                 next_id += (int)n; left -= n;
                 int extras = *gx::range<int>(0, 3);
                 for (int x = 0; x < extras; x++) {
-                    int what = *gx::range<int>(0, 6);
+                    int what = *gx::range<int>(0, 7);
                     Op o;
                     if (what == 0 && next_id > 0) { int id = *gx::range<int>(0, next_id - 1); o.kind = K_PROBE; o.a = {id, id % 3, 0, 0}; }   // exact duplicate (maybe of an already reported one: then it is new again)
-                    else if (what == 1) { o.kind = K_BURST; o.a = {*gx::range<int>(0, 400), *gx::range<int>(1, 5), 1}; }              // foreign-addressed
+                    else if (what == 1) { o.kind = K_BURST; o.a = {*gx::range<int>(400, 800), *gx::range<int>(1, 5), *gx::pick({1, 1, 2, 3})}; }   // addressed to another station (both levels or one of them)
                     else if (what == 2) { o.kind = K_DISCOVER; o.a = {0, *gx::pick({0, 1}), *hg::gen_gen(), 1, d.a[4], 0, -1}; }
                     else if (what == 3) { o.kind = K_EMIT; o.a = {-1, *hg::seq_gen(), -1}; o.blob = *hg::emit_descs(3); }
                     else if (what == 4) { o.kind = K_QLT; o.a = {-1, *hg::seq_gen(), *gx::pick({0x0E, 0x11, 0x13}), 0, 0}; }
                     else if (what == 6 && next_id > 0) { int id = *gx::range<int>(0, next_id - 1); o.kind = K_PROBE; o.a = {id, (id + 1 + *gx::range<int>(0, 1)) % 3 + 3, 0, 0}; }   // same Ethernet source as an earlier observation, another real source: a distinct observation
+                    else if (what == 7) { o.kind = K_RESET; o.a = {0, 1, 1}; }   // Reset of the quick-discovery service: releases the mapper, but the topology observations stay
                     else { o.kind = K_HELLO; o.a = {1, 0, 7}; }
                     c.ops.push_back(o);
                 }
